@@ -123,20 +123,18 @@ class Code310(Code38):
     def check(self):
         for field, fieldtype in self.fieldtypes.items():
             val = getattr(self, field)
+            # Not "assert": these checks are what keeps ill-typed fields of an
+            # untrusted file from being used (and they must survive python -O).
             if isinstance(fieldtype, tuple):
-                assert (
-                    type(val) in fieldtype
-                ), "%s should be one of the types %s; is type %s" % (
-                    field,
-                    fieldtype,
-                    type(val),
+                if type(val) not in fieldtype:
+                    raise TypeError(
+                        "%s should be one of the types %s; is type %s"
+                        % (field, fieldtype, type(val))
+                    )
+            elif not isinstance(val, fieldtype):
+                raise TypeError(
+                    "%s should have type %s; is type %s" % (field, fieldtype, type(val))
                 )
-            else:
-                assert isinstance(
-                    val, fieldtype
-                ), "%s should have type %s; is type %s" % (field, fieldtype, type(val))
-                pass
-            pass
 
     def co_lines(self):
         """
